@@ -36,7 +36,7 @@ def _spec_hash():
 def conformance_programs(cls, tier):
     q = tier == 'quick'
     lib = programs.COMMON_SCRIPTS + (programs.OPT_SCRIPTS + ('XSV0', 'GTXX') if cls == 'opt' else ())
-    plan = [(programs.cross2(cls, lib), dict(pb=2, max_exec=300 if q else 4000)),
+    plan = [(programs.cross2(cls, lib), dict(pb=2, max_exec=(120 if cls == 'opt' else 300) if q else 4000)),
             (programs.cross3(cls, CONV + ('X',), MODES3, MODES3), dict(pb=1 if q else 2, max_exec=150 if q else 3000)),
             (programs.four(cls), dict(pb=1, max_exec=100 if q else 1500))]
     if cls == 'opt':
